@@ -258,8 +258,9 @@ func runPipelines(ctx *bex.Ctx) {
 			return
 		}
 		vsched.Workers = sc.W
+		cfg := vsched.Config{PreemptBound: -1, MaxExecs: maxExecs, Stop: ctx.Expired}
 		explore := func(n int) vsched.Stats {
-			return vsched.Explore(vsched.Config{PreemptBound: -1, MaxExecs: maxExecs, Stop: ctx.Expired}, func() string {
+			return vsched.Explore(cfg, func() string {
 				o := vrun.Eval(f, []value.Value{value.Int(n)})
 				if o.Err {
 					return "ERR"
@@ -296,6 +297,36 @@ func runPipelines(ctx *bex.Ctx) {
 		}
 		if t := st.FirstCrash(); t != nil {
 			ctx.Violate("panic on a library goroutine", repro, "no panic", t.Crash, "")
+		}
+		// second pass without state pruning under a preemption bound (history-key pruning is sound only
+		// for communication through hooked operations, see DESIGN.md Corrections C-1)
+		if !ctx.Expired() {
+			pb := 2
+			if !ctx.Quick() {
+				pb = 3
+			}
+			full := cfg
+			cfg = vsched.Config{PreemptBound: pb, NoPrune: true, MaxExecs: maxExecs / 6, Stop: ctx.Expired}
+			su := explore(sc.N)
+			cfg = full
+			ctx.Add("executions_unpruned_pass", int64(su.Execs))
+			ctx.Add("traces_validated_against_impl", int64(su.Execs))
+			if su.Capped {
+				ctx.Add("scenarios_capped_unpruned_pass", 1)
+			}
+			rp := copyMap(repro)
+			rp["pass"] = fmt.Sprintf("no pruning, <= %d preemptions", pb)
+			if t := su.FirstDeadlock(); t != nil {
+				rp["schedule"] = t.Choices
+				ctx.Violate("deadlock: the evaluation never returns", rp, "evaluation returns", t.Leaks, "")
+			}
+			if t := su.FirstLeak(); t != nil {
+				rp["schedule"] = t.Choices
+				ctx.Violate("goroutine left behind after the evaluation returned", rp, "every goroutine started by the call has terminated", t.Leaks, classifyLeak(t.Leaks))
+			}
+			if t := su.FirstCrash(); t != nil {
+				ctx.Violate("panic on a library goroutine", rp, "no panic", t.Crash, "")
+			}
 		}
 		// background work proportional to the unconsumed input: double the source, the number of
 		// transitions executed after the call returned must not grow
@@ -361,7 +392,7 @@ func main() {
 	bex.Main(&bex.Check{
 		ID:    "C12",
 		Level: "model_checking",
-		Rule: "each case is one Parse/Generate call or one evaluation of a list pipeline on the real code under the controlled scheduler; all interleavings are explored, and at every terminal state (no transition enabled) every vthread must have terminated; evaluations = cases, distinct_nontrivial = parses that stop with an error plus pipelines that start library goroutines",
+		Rule:  "each case is one Parse/Generate call or one evaluation of a list pipeline on the real code under the controlled scheduler; all interleavings are explored, and at every terminal state (no transition enabled) every vthread must have terminated; evaluations = cases, distinct_nontrivial = parses that stop with an error plus pipelines that start library goroutines",
 		Assumptions: []string{"quiescence under the scheduler replaces the wall-clock grace period: a vthread parked when no transition is enabled can never be woken (its channels are referenced by no runnable goroutine)",
 			"background CPU work is measured as scheduler transitions executed after the call returned, compared between source lengths n and 2n"},
 		QuickBudget: 60e9, ThoroughBudget: 25 * 60e9,
